@@ -174,7 +174,7 @@ CtxCrashed ==
 
 ASSUME TLCSet(7, {})
 
-CoverStep(c, id) == IF Fine THEN [k |-> "begin", c |-> c, id |-> IdStr(c, id)] ELSE [k |-> "run", c |-> c, id |-> IdStr(c, id)]
+CoverStep(c, id) == IF Fine /\ c \in FineCtls THEN [k |-> "begin", c |-> c, id |-> IdStr(c, id)] ELSE [k |-> "run", c |-> c, id |-> IdStr(c, id)]
 
 Cover ==
     CoverOn =>
